@@ -142,6 +142,63 @@ def own_calls(n: Any) -> list[ast.Call]:
     return [x for part in own_parts(n) for x in walk_no_nested(part) if isinstance(x, ast.Call)]
 
 
+def _project(value: ast.AST, idx: int, n: int) -> ast.AST | None:
+    """Component `idx` of an n-tuple valued expression built from tuple displays and ternaries."""
+    if isinstance(value, (ast.Tuple, ast.List)) and len(value.elts) == n \
+            and not any(isinstance(e, ast.Starred) for e in value.elts):
+        return value.elts[idx]
+    if isinstance(value, ast.IfExp):
+        a, b = _project(value.body, idx, n), _project(value.orelse, idx, n)
+        if a is not None and b is not None:
+            return ast.copy_location(ast.IfExp(test=value.test, body=a, orelse=b), value)
+    return None
+
+
+def kleene_ast(e: ast.AST, val: Valuation) -> bool | None:
+    """Three-valued value of a boolean expression (and/or/not/ternary over canonical atoms)."""
+    if isinstance(e, ast.BoolOp):
+        rs = [kleene_ast(v, val) for v in e.values]
+        if isinstance(e.op, ast.And):
+            if any(r is False for r in rs):
+                return False
+            return True if all(r is True for r in rs) else None
+        if any(r is True for r in rs):
+            return True
+        return False if all(r is False for r in rs) else None
+    if isinstance(e, ast.UnaryOp) and isinstance(e.op, ast.Not):
+        r = kleene_ast(e.operand, val)
+        return None if r is None else not r
+    if isinstance(e, ast.IfExp):
+        c = kleene_ast(e.test, val)
+        a, b = kleene_ast(e.body, val), kleene_ast(e.orelse, val)
+        if c is True:
+            return a
+        if c is False:
+            return b
+        return a if a == b else None
+    if isinstance(e, ast.Constant):
+        return bool(e.value)
+    return _kleene(canon_total(e), val)
+
+
+def atoms_ast(e: ast.AST) -> list[Any]:
+    if isinstance(e, ast.BoolOp):
+        return [a for v in e.values for a in atoms_ast(v)]
+    if isinstance(e, ast.UnaryOp) and isinstance(e.op, ast.Not):
+        return atoms_ast(e.operand)
+    if isinstance(e, ast.IfExp):
+        return atoms_ast(e.test) + atoms_ast(e.body) + atoms_ast(e.orelse)
+
+    def leaves(c: Any) -> list[Any]:
+        if isinstance(c, tuple) and c and c[0] in ("and", "or"):
+            return [x for k in c[1] for x in leaves(k)]
+        if isinstance(c, tuple) and c and c[0] == "not":
+            return leaves(c[1])
+        return [c]
+
+    return leaves(canon_total(e))
+
+
 class _Subst(ast.NodeTransformer):
     def __init__(self, mapping: dict[str, ast.AST]) -> None:
         self.mapping = mapping
@@ -268,6 +325,12 @@ class Flow:
             rhs = a.value
         elif isinstance(a, ast.AnnAssign) and isinstance(a.target, ast.Name) and a.target.id == name:
             rhs = a.value
+        elif isinstance(a, ast.Assign) and len(a.targets) == 1 and isinstance(a.targets[0], (ast.Tuple, ast.List)):
+            # `x, y = (a, b) if c else (d, e)`: the component bound to `name`
+            elts = a.targets[0].elts
+            idx = [k for k, e in enumerate(elts) if isinstance(e, ast.Name) and e.id == name]
+            if len(idx) == 1 and not any(isinstance(e, ast.Starred) for e in elts):
+                rhs = _project(a.value, idx[0], len(elts))
         if rhs is None or any(isinstance(x, (ast.Await, ast.Yield, ast.YieldFrom, ast.NamedExpr))
                               for x in ast.walk(rhs)):
             return None
@@ -366,19 +429,23 @@ class Flow:
         return canon_total(self.expand(nid, e))
 
     def truth(self, nid: int, val: Valuation) -> bool | None:
-        return _kleene(self.canon_test(nid), val)
+        e = self.test_expr(nid)
+        if e is None:
+            raise AnalysisError(f"{self.qual}: node {nid} is not a branch test")
+        return kleene_ast(self.expand(nid, e), val)
 
     def decides(self, nid: int, val: Valuation) -> bool:
         """Does the test at `nid` mention any atom of the valuation?"""
-        def atoms(c: Any) -> Iterable[Any]:
-            if isinstance(c, tuple) and c and c[0] in ("and", "or"):
-                for k in c[1]:
-                    yield from atoms(k)
-            elif isinstance(c, tuple) and c and c[0] == "not":
-                yield from atoms(c[1])
-            else:
-                yield c
-        return any(a in val for a in atoms(self.canon_test(nid)))
+        e = self.test_expr(nid)
+        if e is None:
+            return False
+        out = False
+        for a in atoms_ast(self.expand(nid, e)):
+            try:
+                out = out or a in val
+            except TypeError:
+                pass
+        return out
 
     def consistent(self, val: Valuation, normal: bool = False) -> EdgeOk:
         cache: dict[int, bool | None] = {}
